@@ -59,14 +59,14 @@ func (s *Sim) Scenario() *ScenarioOut {
 	r := s.R
 	nb := nonceBook{}
 	out := &ScenarioOut{}
-	pick := r.Intn(17)
+	pick := r.Intn(18)
 	forced := false
 	if s.ForceScenario > 0 {
 		pick = s.ForceScenario - 1
 		s.ForceScenario = 0
 		forced = true
 	}
-	if !forced && pick >= 15 {
+	if !forced && pick >= 16 {
 		pick = 4 // the proposal life cycle is the longest template: give it more weight
 	}
 	switch pick {
@@ -357,6 +357,48 @@ func (s *Sim) Scenario() *ScenarioOut {
 		}
 		out.deliver = append(out.deliver, s.specN(nb, us[0], ctrlertypes.TRX_TRANSFER, x, uint256.NewInt(uint64(r.Range(1, 50))), nil).Build())
 		out.deliver = append(out.deliver, s.specN(nb, us[1], ctrlertypes.TRX_TRANSFER, y, uint256.NewInt(uint64(r.Range(1, 50))), nil).Build())
+	case 15: // (needs CheckTx) the mempool accepts a delegation to validator V (and a vote of V if a proposal is open)
+		// that never reaches a block; the next block brings evidence against V: the slashing must read the consensus
+		// view, not the mempool view that already holds the undelivered changes
+		if !s.Opt.WithCheckTx {
+			return nil
+		}
+		v := s.someValidator()
+		us := s.userKeys(1)
+		if v == nil || len(us) < 1 {
+			return nil
+		}
+		u := us[0]
+		var openProp *PropRef
+		for i := range s.Props {
+			if p := s.Props[i]; p.Start <= s.Height+1 && p.End >= s.Height+2 && p.NOpts > 0 {
+				openProp = &s.Props[i]
+			}
+		}
+		if openProp == nil && !s.scn15Tried && r.Chance(60) {
+			// no open proposal: start one (everybody votes option 0) and come back
+			s.scn15Tried = true
+			ap := s.N.App.VerifGov().VerifActiveParams()
+			start := s.Height + 2
+			period := ap.MaxVotingPeriodBlocks()
+			opts := [][]byte{[]byte(optionPool[r.Intn(len(optionPool))]), []byte(optionPool[r.Intn(len(optionPool))])}
+			out.deliver = append(out.deliver, s.specN(nb, v, ctrlertypes.TRX_PROPOSAL, rtypes.ZeroAddress(), nil, &ctrlertypes.TrxPayloadProposal{Message: "m", StartVotingHeight: start,
+				VotingPeriodBlocks: period, ApplyingHeight: start + period + ap.LazyApplyingBlocks(), OptType: 257, Options: opts}).Build())
+			s.VoteAll = true
+			s.ForceScenario = 16
+			return out
+		}
+		amt := uint64(r.Range(1, 4))
+		s.PreBeginCheck = append(s.PreBeginCheck, func() []byte {
+			return s.base(u, ctrlertypes.TRX_STAKING, v.Addr, Rigo(amt), nil).Build()
+		})
+		if openProp != nil {
+			ph, choice := openProp.Hash, int32(openProp.NOpts-1)
+			s.PreBeginCheck = append(s.PreBeginCheck, func() []byte {
+				return s.base(v, ctrlertypes.TRX_VOTING, rtypes.ZeroAddress(), nil, &ctrlertypes.TrxPayloadVoting{TxHash: ph, Choice: choice}).Build()
+			})
+		}
+		s.PendingEvidence = append(s.PendingEvidence, v.Addr)
 	case 6: // a contract transaction sent by / sent to / touching the proposer of this block
 		if !s.Opt.WithEVM || s.Cur == nil || len(s.Cur.Proposer) == 0 || len(s.Contracts) == 0 {
 			return nil
